@@ -859,9 +859,10 @@ func rulesC12(c *Ctx) {
 				}
 				n++
 				ok := false
-				if bc, isCall := ast.Unparen(call.Args[2]).(*ast.CallExpr); isCall && f.IsCallTo(bc, cpf.Obj) && len(bc.Args) == 3 {
+				of, oe := f.resolveValue(call.Args[2])
+				if bc, isCall := ast.Unparen(oe).(*ast.CallExpr); isCall && of.IsCallTo(bc, cpf.Obj) && len(bc.Args) == 3 {
 					// the third argument is the Params the enclosing function was given for the call being cancelled
-					if pp := f.Root().ParamOfNamed(pM, "Params"); pp != nil && f.ObjOf(bc.Args[2]) == types.Object(pp) {
+					if pp := of.Root().ParamOfNamed(pM, "Params"); pp != nil && of.ObjOf(bc.Args[2]) == types.Object(pp) {
 						ok = true
 					}
 				}
